@@ -41,7 +41,7 @@ Definition is_nil {A} (l : list A) : bool := match l with [] => true | _ => fals
 
 (* float strings written with a decimal point: [ws][+-]digits.digits[ws], "123.4", "3.", ".5" *)
 Definition point_literal (s : pstr) : bool :=
-  let t := strip s in
+  let t := cstrip s in
   let u := match t with
            | c :: r => if ascii_eqb c c_dash || ascii_eqb c "+"%char then r else t
            | [] => []
@@ -66,6 +66,52 @@ Definition is_env (e : engine) : bool := match e with Env => true | _ => false e
 (* EnvWizard reads digit strings for datetime / date fields as timestamps, so they are
    not ISO strings there *)
 Definition iso_candidate (e : engine) (s : pstr) : bool := negb (is_env e && numeric_doc s).
+
+(* ---- numerals, as the documentation means them ------------------------------------------
+   "String representations of integers (e.g. "123")": a sign, decimal digits (Python also
+   reads single underscores between digits and surrounding blanks), denoting the integer
+   sum d_i * 10^i whatever its size.  "Float strings" written with a decimal point whose
+   fraction digits are all zero ("3.0", "3.", "-5.00") denote that integer too. *)
+Inductive dig := D0 | D1 | D2 | D3 | D4 | D5 | D6 | D7 | D8 | D9.
+Definition dig_val (d : dig) : Z :=
+  match d with D0 => 0 | D1 => 1 | D2 => 2 | D3 => 3 | D4 => 4 | D5 => 5 | D6 => 6 | D7 => 7 | D8 => 8 | D9 => 9 end%Z.
+Definition dig_char (d : dig) : ascii :=
+  match d with D0 => "0" | D1 => "1" | D2 => "2" | D3 => "3" | D4 => "4" | D5 => "5" | D6 => "6" | D7 => "7" | D8 => "8" | D9 => "9" end%char.
+(* Horner: the value of the digit sequence, most significant digit first *)
+Definition dstep (a : Z) (d : dig) : Z := (10 * a + dig_val d)%Z.
+Definition dec_val (ds : list dig) : Z := fold_left dstep ds 0%Z.
+Definition dig_str (ds : list dig) : pstr := map dig_char ds.
+
+Inductive sgn := SgNone | SgPlus | SgMinus.
+Definition sgn_str (g : sgn) : pstr :=
+  match g with SgNone => [] | SgPlus => ["+"%char] | SgMinus => [c_dash] end.
+Definition sgn_apply (g : sgn) (z : Z) : Z := match g with SgMinus => (- z)%Z | _ => z end.
+
+(* a non-empty run of digits *)
+Definition grp := (dig * list dig)%type.
+Definition grp_digs (g : grp) : list dig := fst g :: snd g.
+
+(* integer literal: blanks, optional sign, digit groups joined by single underscores, blanks *)
+Record int_lit := { il_ws1 : pstr; il_sgn : sgn; il_first : grp; il_more : list grp; il_ws2 : pstr }.
+Definition il_wf (l : int_lit) : bool := forallb is_cws (il_ws1 l) && forallb is_cws (il_ws2 l).
+Definition il_digs (l : int_lit) : list dig := grp_digs (il_first l) ++ flat_map grp_digs (il_more l).
+Definition il_str (l : int_lit) : pstr :=
+  il_ws1 l ++ (sgn_str (il_sgn l) ++ dig_str (grp_digs (il_first l)) ++
+               flat_map (fun g => c_us :: dig_str (grp_digs g)) (il_more l)) ++ il_ws2 l.
+Definition il_val (l : int_lit) : Z := sgn_apply (il_sgn l) (dec_val (il_digs l)).
+
+(* plain decimal numeral with an integral value: blanks, optional sign, digits, and
+   optionally a point followed by zeros only ([nl_frac] = Some k: k zeros), blanks *)
+Record num_lit := { nl_ws1 : pstr; nl_sgn : sgn; nl_int : list dig; nl_frac : option nat; nl_ws2 : pstr }.
+Definition nl_wf (l : num_lit) : bool :=
+  forallb is_cws (nl_ws1 l) && forallb is_cws (nl_ws2 l) &&
+  match nl_int l, nl_frac l with
+  | [], None => false | [], Some O => false | _, _ => true
+  end.
+Definition nl_str (l : num_lit) : pstr :=
+  nl_ws1 l ++ (sgn_str (nl_sgn l) ++ dig_str (nl_int l) ++
+               match nl_frac l with Some k => c_dot :: dig_str (repeat D0 k) | None => [] end) ++ nl_ws2 l.
+Definition nl_val (l : num_lit) : Z := sgn_apply (nl_sgn l) (dec_val (nl_int l)).
 
 Section Ref.
 Variable O : oracles.
@@ -94,7 +140,7 @@ Inductive doc_scalar : engine -> sty -> jv -> res pv -> Prop :=
 | d_int_float_round : forall e f n, is_v1 e = false -> rounds_to f n ->
     doc_scalar e SInt (JFloat f) (Ok (VInt n))
 | d_int_fstr_round : forall e s f n, is_v1 e = false -> point_literal s = true ->
-    o_float_of_str O s = Ok f -> rounds_to f n -> doc_scalar e SInt (JStr s) (Ok (VInt n))
+    py_float_of_str s = Ok f -> rounds_to f n -> doc_scalar e SInt (JStr s) (Ok (VInt n))
     (* "Empty strings or None return the default value of 0" *)
 | d_int_empty : forall e, is_v1 e = false -> doc_scalar e SInt (JStr []) (Ok (VInt 0))
 | d_int_none : forall e, is_v1 e = false -> doc_scalar e SInt JNone (Ok (VInt 0))
@@ -102,9 +148,9 @@ Inductive doc_scalar : engine -> sty -> jv -> res pv -> Prop :=
        fractional parts (3.0 or "3.0") continue to convert"; None is not coerced *)
 | d_int_float_integral : forall f n, integral f n -> doc_scalar V1 SInt (JFloat f) (Ok (VInt n))
 | d_int_float_fractional : forall f, fractional f -> doc_scalar V1 SInt (JFloat f) (Err EValue)
-| d_int_fstr_integral : forall s f n, point_literal s = true -> o_float_of_str O s = Ok f -> integral f n ->
+| d_int_fstr_integral : forall s f n, point_literal s = true -> py_float_of_str s = Ok f -> integral f n ->
     doc_scalar V1 SInt (JStr s) (Ok (VInt n))
-| d_int_fstr_fractional : forall s f, point_literal s = true -> o_float_of_str O s = Ok f -> fractional f ->
+| d_int_fstr_fractional : forall s f, point_literal s = true -> py_float_of_str s = Ok f -> fractional f ->
     doc_scalar V1 SInt (JStr s) (Err EValue)
 | d_int_none_v1 : doc_scalar V1 SInt JNone (Err EType)
 (* Enum: "de-serialized via the value attribute" (string and integer values) *)
@@ -143,12 +189,12 @@ Inductive doc_scalar : engine -> sty -> jv -> res pv -> Prop :=
 | d_date_int : forall e z, doc_scalar e SDate (JInt z) (rmap VDate (o_date_fromts O (NInt z)))
 | d_date_float : forall e f, doc_scalar e SDate (JFloat f) (rmap VDate (o_date_fromts O (NFloat f)))
 (* EnvWizard: SOME_DT_VAL='1651077045' *)
-| d_dt_env_numstr : forall s f, numeric_doc s = true -> o_float_of_str O s = Ok f ->
+| d_dt_env_numstr : forall s f, numeric_doc s = true -> py_float_of_str s = Ok f ->
     doc_scalar Env SDateTime (JStr s) (rmap VDateTime (o_dt_fromts O true (NFloat f)))
 (* timedelta: "If the value is a string, we first ensure it's in a numeric form like '1.23',
    and if so convert it to a float value in seconds; otherwise ... pytimeparse.  Lastly, any
    numeric values are assumed to be in seconds and are used as is." *)
-| d_td_numstr : forall e s f, numeric_doc s = true -> o_float_of_str O s = Ok f ->
+| d_td_numstr : forall e s f, numeric_doc s = true -> py_float_of_str s = Ok f ->
     doc_scalar e STimedelta (JStr s) (rmap VTimedelta (o_timedelta O (NFloat f)))
 | d_td_parse : forall e s x, numeric_doc s = false -> o_timeparse O s = Ok (Some x) ->
     doc_scalar e STimedelta (JStr s) (rmap VTimedelta (o_timedelta O x))
